@@ -36,7 +36,8 @@ def paths_bytes(prog, f, fixed, flag_map=None, depth=0):
         if w is not None:
             return {w}
         g = prog.callee_fn(t)
-        if g is not None and g.name in (SP + "StringRef::read", SP + "StringRef::write") and depth < 2:
+        if g is not None and g.crate == "msi" and depth < 2 and (g.name in (SP + "StringRef::read", SP + "StringRef::write") or any(
+                io_width(tt) for bb, tt in g.calls())):
             # map the callee's flag parameter
             fl = S.val(t["args"][-1])
             sub_fixed = {}
